@@ -29,7 +29,10 @@ ABSTRACT = {"J", "I", "U"}
 
 
 def _dir(cond):
-    return {"none": "", "include": " @include(if: $inc)", "skip": " @skip(if: $skp)"}[cond]
+    return {"none": "", "include": " @include(if: $inc)", "skip": " @skip(if: $skp)",
+            # literal conditions (outside the TLC-enumerated universe; used by C01's literal-condition leg)
+            "include_false": " @include(if: false)", "include_true": " @include(if: true)",
+            "skip_true": " @skip(if: true)", "skip_false": " @skip(if: false)"}[cond]
 
 
 def render_sels(sels, ind):
